@@ -14,7 +14,7 @@ RULE = ("generated families x value trees drawn to satisfy the declaration (leng
 ASSUMPTIONS = ["a value tree counts as consistent iff the reference parser maps its reference encoding back to the same tree",
                "regex delimiters not kept in the value excluded (the value does not determine the delimiter)", "reference model bv/ir.py trusted"]
 
-PROF = gen.profile(move=0.15, regex_unkept=False, refsel_optdep=True)
+PROF = gen.profile(move=0.15, regex_unkept=False, refsel_optdep=True, defaults=True)
 
 
 def shards(tier):
